@@ -128,6 +128,8 @@ def run_container(ctx, prop: str, cls: str) -> Result:
         RC.check_memo_keys(ctx, res, cls)
     with res.guard("RC.check_canon_key"):
         RC.check_canon_key(ctx, res, cls)
+    with res.guard("RC.check_merge_key"):
+        RC.check_merge_key(ctx, res, cls)
     with res.guard("RC.check_record_deletion_joint(ctx, res, cls)"):
         RC.check_record_deletion_joint(ctx, res, cls)
     with res.guard("RC.check_batch_insert(ctx, res, cls)"):
